@@ -586,6 +586,11 @@ func (r *WordRenderer) extractTextContentRecursive(node ast.Node, buf *strings.B
 		switch n := child.(type) {
 		case *ast.Text:
 			buf.WriteString(r.textOf(n))
+			// 文本后面的换行（软换行或硬换行）分隔两个词：提取成一行文本时用空格代替，
+			// 否则跨行的标题（Setext 写法）里上一行的最后一个词和下一行的第一个词会连在一起
+			if n.SoftLineBreak() || n.HardLineBreak() {
+				buf.WriteString(" ")
+			}
 		case *ast.AutoLink:
 			buf.Write(n.Label(r.source))
 		default:
